@@ -21,7 +21,10 @@ CLAIMS = [
                 "rejected without effect, a resize beyond the maximum is refused with maximum_hashpower_exceeded, an automatic "
                 "expansion below the minimum load factor is refused with load_factor_too_low, an explicit one never consults the load "
                 "factor, and a refused resize returns the table unchanged. The model is tied to /repo by K2 (full answers of all "
-                "limit-related requests incl. structural scan `hp <= mhp` on the real table; the oracle also checks `at least as large as "
+                "limit-related requests incl. structural scan `hp <= mhp` on the real table; Props/C10Limits.lean (T-F): the guard lists of check_resize_validity, "
+                "minimum_load_factor(double) and maximum_hashpower(size_type) are regenerated from the source text on every run and the model's decision "
+                "functions are proved to be EXACTLY their interpretation (checkResize_is_source, setMlf_is_source, setMhp_is_source: same guards, same order, same "
+                "strict comparisons; settings stored only after validation); the oracle also checks `at least as large as "
                 "requested` after every rehash/reserve). Size guarantees: rehash_at_least, reserve_at_least (for representable requests), "
                 "rehash_flag, insert_never_shrinks, hp_never_exceeds_limit (any run), rehash/reserve_keeps_contents. PARTIAL: `exactly as large "
                 "as requested when growing` is not proved (a rebuild may expand again for adversarial hash functions; the model replicates "
@@ -258,7 +261,10 @@ CLAIMS = [
                 "`new` catches std::bad_alloc and sets errno=ENOMEM; init_and_read_disable_limits (was false for _read: finding F7, repaired); with both "
                 "limits disabled checkResize raises no policy exception; the handler-less members never fail in the model; a failed allocating "
                 "member leaves Inv and the contents (C07). K6: every C call wrapped in catch(...), k-th global allocation failing for every reachable k "
-                "(errno, failure value, contents, hashpower), key sets colliding in every small table.",
+                "(errno, failure value, contents, hashpower), key sets colliding in every small table; a `race` probe (two threads, same absent key) on a table of "
+                "its own. Props/C10Limits.lean (T-F, shared with C10): the load-factor guard of check_resize_validity, regenerated from the source text, is STRICT "
+                "(`load_factor() < minimum_load_factor()`, load_factor_guard_is_strict, checkResize_is_source) - with the minimum 0 of C tables it can never fire; "
+                "K2 boundary streams expand tables whose load factor EQUALS the minimum and the oracle judges every load_factor_too_low against the load factor it saw.",
         "design_ref": "DESIGN.md 6/C15, 12",
         "note": "`load_factor() < 0` being false is an IEEE fact the kernel cannot evaluate (explicit hypothesis hlf); global operator new is interposed only in the K6 harness.",
     },
